@@ -296,7 +296,10 @@ func verifC15Step(f verifkit.F, c *verifkit.Case, st *verifC15StoreState, op ver
 				continue
 			}
 			rel := verifC15Relation(st.stored, beforeModel, svc, op)
-			if c.Violation(f, "C15/accepted-write-breaks-chain/"+rel+"/"+verifc15.ErrKind(o1.Err),
+			// The signature names the relation between the broken chain and the written entry (which is what tells
+			// the root causes apart); the kind of compile error is incidental and only labelled.
+			c.Label("accepted-write-breaks-chain:" + rel + ":" + verifc15.ErrKind(o1.Err))
+			if c.Violation(f, "C15/accepted-write-breaks-chain/"+rel,
 				"%s %s was ACCEPTED at index %d, but afterwards the chain of %q does not compile in the validator's own context: %v\nstored entries: %s",
 				op.Op, op.Entry.Key(), st.idx, svc, o1.Err, verifC15StoredJSON(st.stored)) {
 				st.broken[svc] = o1.Err.Error()
